@@ -5,6 +5,7 @@ import Driver.Util
   tok <raw>*            raw ::= i<digits> | m | o<k>        -> `T <tok,...> E <flags> V <values>`
   asg <ty> <ty>                                             -> `a=. m=. s=. p=..`
   slv <tps> <concrete> <generic>                            -> `s=. g=. e=.`
+  join if|match <ty>*   branch-body types of a chain / of match arms -> 1 (accepted) | 0
 Type syntax (prefix, no blanks): a0 a1 | u b i | g<n>; | n<s>,<m>,<id>(<ty>*) | f(<ty>*)<ty> -/
 namespace Driver.C06
 open SamVerif Driver
@@ -112,6 +113,12 @@ def step (_ : Unit) (line : String) : Unit × String :=
         | none => "none"
       ((), s!"a={bit (Assign.assignable x y)} m={m} s={bit (Assign.sameType x y)} p={bit (Assign.containsPlaceholder x)}{bit (Assign.containsPlaceholder y)}")
     | _, _ => ((), "bad-type")
+  | "join" :: kind :: tys =>
+    let ts := tys.map parseTyS
+    if ts.all Option.isSome then
+      let l := ts.filterMap id
+      ((), bit (if kind == "match" then Assign.matchArmsOk l else Assign.ifChainOk l))
+    else ((), "bad-type")
   | ["slv", tps, c, g] =>
     let ns := ((tps.splitOn ",").filterMap String.toNat?)
     match parseTyS c, parseTyS g with
